@@ -1,0 +1,58 @@
+//go:build verif
+
+package aggsender
+
+import (
+	"context"
+	"time"
+
+	"github.com/agglayer/aggkit/agglayer"
+	"github.com/agglayer/aggkit/aggsender/config"
+	"github.com/agglayer/aggkit/aggsender/db"
+	"github.com/agglayer/aggkit/aggsender/statuschecker"
+	"github.com/agglayer/aggkit/aggsender/types"
+	aggkitcommon "github.com/agglayer/aggkit/common"
+	"github.com/agglayer/aggkit/log"
+)
+
+// Verification hooks (build tag verif): assemble an AggSender from injected parts exactly as New does, and run the
+// pieces of Start one at a time. No logic lives here.
+
+// NewVerifAggSender is New without the construction of storage, flow and clients (they are passed in).
+func NewVerifAggSender(
+	logger *log.Logger,
+	cfg config.Config,
+	storage db.AggSenderStorage,
+	aggLayerClient agglayer.AgglayerClientInterface,
+	epochNotifier types.EpochNotifier,
+	flow types.AggsenderFlow,
+	l2OriginNetwork uint32,
+) *AggSender {
+	return &AggSender{
+		cfg:               cfg,
+		log:               logger,
+		storage:           storage,
+		aggLayerClient:    aggLayerClient,
+		epochNotifier:     epochNotifier,
+		status:            &types.AggsenderStatus{Status: types.StatusNone},
+		flow:              flow,
+		rateLimiter:       aggkitcommon.NewRateLimit(cfg.MaxSubmitCertificateRate),
+		l2OriginNetwork:   l2OriginNetwork,
+		certStatusChecker: statuschecker.NewCertStatusChecker(logger, storage, aggLayerClient, l2OriginNetwork),
+	}
+}
+
+// VerifCheckInitialStatus is the start-up reconciliation of Start (it retries until it succeeds or ctx is done).
+// It returns the last error recorded in the status.
+func (a *AggSender) VerifCheckInitialStatus(ctx context.Context) string {
+	a.certStatusChecker.CheckInitialStatus(ctx, a.cfg.DelayBetweenRetries.Duration, a.status)
+	return a.status.LastError
+}
+
+// VerifSendCertificates is sendCertificates (the main loop) returning after n iterations.
+func (a *AggSender) VerifSendCertificates(ctx context.Context, n int) { a.sendCertificates(ctx, n) }
+
+// VerifSetCheckStatusInterval sets the period of the status-check ticker used by the next VerifSendCertificates call.
+func (a *AggSender) VerifSetCheckStatusInterval(d time.Duration) {
+	a.cfg.CheckStatusCertificateInterval.Duration = d
+}
